@@ -348,6 +348,8 @@ REP = {
     "twocomp": [[], [0], [], [2]],
     "chain4": [[], [0], [1], [2]],
     "wide5": [[], [], [0], [1], [2, 3]],
+    "indep3": [[], [], []],
+    "indep4": [[], [], [], []],
 }
 
 
